@@ -132,8 +132,18 @@ func genExpr(t *rapid.T, depth int) Expr {
 		}
 		return e
 	case 12:
-		ipArg := rapid.SampledFrom([]string{"@host", "10.1.2.3", "2001:db8::1", "192.168.1.77", "fe80::1", "8.8.8.8", "::1", "127.0.0.1", "not-an-ip"}).Draw(t, "exarg")
-		return Expr{Op: "call", Fn: "isInNetEx", Args: []string{ipArg, rapid.SampledFrom(c14CIDRs).Draw(t, "cidr")}}
+		ipArg := rapid.SampledFrom([]string{"@host", "10.1.2.3", "2001:db8::1", "192.168.1.77", "fe80::1", "8.8.8.8", "::1", "127.0.0.1", "not-an-ip",
+			"10.1.3.3", "10.1.2.131", "192.168.0.77", "2001:db8:0:1::1", "2001:db9::1"}).Draw(t, "exarg")
+		cidr := rapid.SampledFrom(c14CIDRs).Draw(t, "cidr")
+		if rapid.Bool().Draw(t, "anyprefixlen") {
+			// any prefix length, also ones that end inside an octet; the address part may have bits set beyond the prefix
+			if rapid.Bool().Draw(t, "v6prefix") {
+				cidr = rapid.SampledFrom([]string{"2001:db8::1", "2001:db8::", "fe80::1", "::1"}).Draw(t, "cidr6") + "/" + strconv.Itoa(rapid.IntRange(0, 128).Draw(t, "len6"))
+			} else {
+				cidr = rapid.SampledFrom([]string{"10.1.2.3", "10.1.2.0", "192.168.1.77", "172.16.5.4", "8.8.8.8"}).Draw(t, "cidr4") + "/" + strconv.Itoa(rapid.IntRange(0, 32).Draw(t, "len4"))
+			}
+		}
+		return Expr{Op: "call", Fn: "isInNetEx", Args: []string{ipArg, cidr}}
 	default:
 		lists := []string{"10.2.3.9;2001:db8::1;10.1.1.1", "10.1.2.3", "fe80::2;fe80::1", "192.168.1.1;10.0.0.1;172.16.0.1", "8.8.8.8;2001:db8::5;8.8.4.4;::1"}
 		l := rapid.SampledFrom(lists).Draw(t, "sortlist")
@@ -464,11 +474,37 @@ func (r refCtx) eval(e Expr) bool {
 	case "isResolvableEx":
 		return r.resolveAll(a(0)) != ""
 	case "isInNetEx":
-		ip := net.ParseIP(a(0))
-		_, n, err := net.ParseCIDR(a(1))
-		return ip != nil && err == nil && n.Contains(ip)
+		return refInPrefix(a(0), a(1))
 	}
 	return false
+}
+
+// refInPrefix: the address, written out as bits, begins with the first <length> bits of the prefix's address; address and
+// prefix are of the same family (nothing here is IPv4-mapped).
+func refInPrefix(addr, cidr string) bool {
+	ip := net.ParseIP(addr)
+	base, lenStr, ok := strings.Cut(cidr, "/")
+	n, err := strconv.Atoi(lenStr)
+	pfx := net.ParseIP(base)
+	if ip == nil || !ok || err != nil || pfx == nil {
+		return false
+	}
+	a, b := ip.To4(), pfx.To4()
+	if (a == nil) != (b == nil) {
+		return false
+	}
+	if a == nil {
+		a, b = ip.To16(), pfx.To16()
+	}
+	if n < 0 || n > 8*len(b) {
+		return false
+	}
+	for i := 0; i < n; i++ {
+		if (a[i/8]>>(7-i%8))&1 != (b[i/8]>>(7-i%8))&1 {
+			return false
+		}
+	}
+	return true
 }
 
 func (r refCtx) walk(n Node) string {
